@@ -1169,3 +1169,17 @@ Proof.
     destruct (H (or_introl eq_refl)) as [E|[]]. discriminate.
   - exists []. split; [vm_compute; auto|vm_compute; discriminate].
 Qed.
+
+(* ------------------------------------------------------------------ super proxies *)
+Lemma incl_flat_map {A} (F G : A -> list nat) l : (forall a, incl (F a) (G a)) -> incl (flat_map F l) (flat_map G l).
+Proof.
+  intros H x. rewrite !in_flat_map. intros [a [Ha Hx]]. exists a. split; auto. apply (H a); auto.
+Qed.
+
+Lemma super_within_ledger_lemma g ops rest :
+  incl (flat_map (lo_implemented g (lrun g ops)) rest) (super_implemented g (run true g ops) rest) /\
+  incl (super_implemented g (run true g ops) rest) (flat_map (hi_implemented g (lrun g ops)) rest).
+Proof.
+  destruct (provided_within_ledger_lemma g ops) as [_ B]. unfold super_implemented.
+  split; apply incl_flat_map; intros c; apply (B c).
+Qed.
